@@ -408,19 +408,33 @@ def tracked(sock, closelog, serial):
 
 
 class FaultySocket:
-    """Forwards to a real socket; the n-th recv / send raises the planned error."""
+    """Forwards to a real socket; planned calls of recv / send raise the planned error.
+    faults: ('recv'|'send', n) -> exception (the n-th call), ('send', n, '+') -> exception (every call from the
+    n-th on).  The value 'stall' stands for EAGAIN for as long as the far end is alive (the peer does not read):
+    once the harness closes / resets the far end (`released`), calls reach the real socket again."""
 
     def __init__(self, sock, faults=None):
         self._s = sock
-        self._faults = dict(faults or {})      # ('recv'|'send', n) -> exception instance
+        self._faults = dict(faults or {})
         self._n = {'recv': 0, 'send': 0}
+        self.released = False
 
     def _maybe(self, op):
         n = self._n[op]
         self._n[op] = n + 1
         e = self._faults.get((op, n))
-        if e is not None:
-            raise e
+        if e is None:
+            for k, v in self._faults.items():
+                if len(k) == 3 and k[0] == op and n >= k[1]:
+                    e = v
+                    break
+        if e is None:
+            return
+        if e == 'stall':
+            if self.released:
+                return
+            raise BlockingIOError(errno.EAGAIN, 'again')
+        raise e
 
     def recv(self, *a):
         self._maybe('recv')
@@ -469,7 +483,11 @@ class Peer:
                 return
             self.rx += d
 
+    fs = None
+
     def close(self):
+        if self.fs is not None:
+            self.fs.released = True
         self.world.close_fd(self.sock.fileno())
 
     def reset(self):
@@ -538,10 +556,16 @@ class RealWorld(World):
         # the handler sets it non-blocking itself (setblocking(False)); keep it so
         return FaultySocket(near, faults) if faults else near
 
-    def client(self, faults=None, addr=('127.0.0.1', 40000)):
+    def client(self, faults=None, addr=('127.0.0.1', 40000), smallbuf=False):
         near, far = self._pair(('client', addr))
+        if smallbuf:
+            # a client that accepts little: what the proxy queues for it soon stays queued
+            near.setsockopt(socket.SOL_SOCKET, socket.SO_SNDBUF, 4096)
+            far.setsockopt(socket.SOL_SOCKET, socket.SO_RCVBUF, 4096)
         p = Peer(self, far, near.fileno())
-        self.queue(FaultySocket(near, faults) if faults else near, addr)
+        fs = FaultySocket(near, faults) if faults else None
+        p.fs = fs
+        self.queue(fs if fs is not None else near, addr)
         return p
 
     def pump(self, peers=(), n=6):
@@ -1049,10 +1073,15 @@ def _fault(name):
 
 
 def _faults(spec):
+    """{'recv:2': 'reset', 'send:0+': 'pipe', 'send:1+': 'stall'} -> FaultySocket faults"""
     out = {}
     for k, v in (spec or {}).items():
         op, n = k.split(':')
-        out[(op, int(n))] = _fault(v)
+        e = 'stall' if v == 'stall' else _fault(v)
+        if n.endswith('+'):
+            out[(op, int(n[:-1]), '+')] = e
+        else:
+            out[(op, int(n))] = e
     return out
 
 
@@ -1096,7 +1125,7 @@ def drive(w, case, res, rounds_per_step=3, final_rounds=8):
                 res['dead'] = e
                 return False
             for c in conns:
-                if c.client is not None:
+                if c.client is not None and not c.spec.get('noread'):
                     c.client.drain()
                 for u in c.ups:
                     u.drain()
@@ -1104,7 +1133,8 @@ def drive(w, case, res, rounds_per_step=3, final_rounds=8):
 
     def step(c):
         if c.client is None:
-            c.client = w.client(faults=_faults(c.spec.get('cf')) or None, addr=('127.0.0.1', 40000 + c.idx))
+            c.client = w.client(faults=_faults(c.spec.get('cf')) or None, addr=('127.0.0.1', 40000 + c.idx),
+                                smallbuf=bool(c.spec.get('smallbuf')))
             k = c.spec.get('i', c.idx)
             byport[8000 + k] = c
             byport[9000 + k] = c
@@ -1118,6 +1148,8 @@ def drive(w, case, res, rounds_per_step=3, final_rounds=8):
             c.client.send(bytes.fromhex(op[1]))
         elif op[0] == 'us' and up is not None:
             up.send(bytes.fromhex(op[1]))
+        elif op[0] == 'usn' and up is not None:
+            up.send(bytes(65 + (k % 23) for k in range(op[1])))      # op[1] bytes of origin output
         elif op[0] == 'cc':
             c.client.close()
         elif op[0] == 'cr':
@@ -1155,9 +1187,11 @@ def drive(w, case, res, rounds_per_step=3, final_rounds=8):
     if alive:
         for c in conns:
             if c.client is not None and c.client.sock.fileno() >= 0:
+                # (after idle reaping, too: a work with output still queued is never `inactive`,
+                #  its connection ends when the client goes away)
                 if case.get('final') == 'reset':
                     c.client.reset()
-                elif case.get('final') != 'idle':
+                else:
                     c.client.close()
         alive = pump(final_rounds)
     for c in conns:
@@ -1286,7 +1320,30 @@ def mutate(rng, b):
     return bytes(b)
 
 
+def backlog_variants(role, i):
+    """connections that reach teardown with output still queued for a client that no longer takes it:
+    (a) the origin produces more than the (non-reading, small-buffered) client accepts, then every kind of abort;
+    (b) the client socket's send stalls (EAGAIN while the client lives) or fails (EPIPE / ECONNRESET) from the
+        first / second call on, then every kind of abort"""
+    good = good_script(role, i)
+    out = []
+    k = next((n for n, st in enumerate(good) if st[0] == 'us'), None)
+    if k is not None:
+        flood = [list(st) for st in good[:k]] + [['usn', 131072]] * 5
+        for ab in ABORTS:
+            out.append({'role': role, 'i': i, 'adv': 1, 'kind': 'backlog', 'noread': 1, 'smallbuf': 1,
+                        'steps': flood + [[ab]]})
+    for spec in ({'send:0+': 'stall'}, {'send:1+': 'stall'}, {'send:0+': 'pipe'}, {'send:1+': 'reset'},
+                 {'send:0': 'again', 'send:1+': 'pipe'}):
+        for ab in ABORTS:
+            steps = [list(st) for st in good if st[0] != 'cc'] + [[ab]]
+            out.append({'role': role, 'i': i, 'adv': 1, 'kind': 'backlog', 'cf': dict(spec), 'steps': steps})
+    return out
+
+
 def gen_adversary(rng, i):
+    if rng.random() < 0.12:
+        return rng.choice(backlog_variants(rng.choice(ROLES), i))
     """one adversarial connection: every kind of abuse the property quantifies over"""
     role = rng.choice(ROLES)
     good = good_script(role, i)
